@@ -55,10 +55,7 @@ impl<R: AsyncRead + Unpin + Send + Sync> AsyncReadPacket for R {
     }
 
     async fn read_string(&mut self) -> Result<String, Error> {
-        let length = self.read_varint().await? as usize;
-
-        let mut buffer = vec![0; length];
-        self.read_exact(&mut buffer).await?;
+        let buffer = self.read_bytes().await?;
 
         String::from_utf8(buffer).map_err(|_| Error::InvalidEncoding)
     }
@@ -96,10 +93,17 @@ impl<R: AsyncRead + Unpin + Send + Sync> AsyncReadPacket for R {
     }
 
     async fn read_bytes(&mut self) -> Result<Vec<u8>, Error> {
-        let length = self.read_varint().await? as usize;
+        // a negative length is never valid
+        let length = usize::try_from(self.read_varint().await?)
+            .map_err(|_| Error::IllegalPacketLength)?;
 
-        let mut buffer = vec![0; length];
-        self.read_exact(&mut buffer).await?;
+        // read through a limited reader, so that memory is only committed for bytes that actually
+        // arrive and not for whatever length the peer declares
+        let mut buffer = Vec::new();
+        let read = self.take(length as u64).read_to_end(&mut buffer).await?;
+        if read != length {
+            return Err(Error::Io(std::io::ErrorKind::UnexpectedEof.into()));
+        }
 
         Ok(buffer)
     }
